@@ -48,7 +48,14 @@ fn gen_map(r: &mut Lcg, n_objects: usize, mode: u8, boundary: bool) -> String {
                 let len = len2 / 2 + len2 % 2;          // the control point at the next whole pixel, the expected length exact
                 let ex = if px + len <= 512 { px + len } else { px - len };
                 let slides = r.pick(&[1u32, 1, 2, 3]);
-                let _ = writeln!(s, "{px},192,{t},2,0,L|{ex}:192,{slides},{}", len2 as f64 / 2.0);
+                // a third of the boundary streams: fractional event times that straddle a whole millisecond (start x.7 ms, gaps of
+                // 80.6 / 100.6 / 200.6 / 400.6 ms): the code truncates each event time, not the difference
+                if boundary && r.n(3) == 0 {
+                    let flen = r.pick(&[14.575f64, 17.075, 29.575, 54.575]);
+                    let _ = writeln!(s, "{px},192,{t}.7,2,0,L|{ex}:192,{slides},{flen}");
+                } else {
+                    let _ = writeln!(s, "{px},192,{t},2,0,L|{ex}:192,{slides},{}", len2 as f64 / 2.0);
+                }
                 // the next object starts after (or, sometimes, inside) the stream
                 t += r.pick(&[0i64, 200, 900]);
             }
